@@ -266,6 +266,15 @@ def dict_overwrite(v):
         D = val[1][1]
     if val[0] == 'ite' and val[1] == CMP('In', i, val[2][1] if val[2][0] == 'idx' else NONE) and val[2][0] == 'idx' and val[2][2] == i and val[3] == ('list', ()):
         D = val[2][1]
+    if D is None and val[0] == 'call' and val[1][0] == 'attr' and val[1][2] == 'get' and len(val[2]) == 2 and val[2][1] == ('list', ()) \
+            and val[2][0] in (BIN('Add', i, C(1)), BIN('Add', C(1), i)) and val[1][1][0] == 'call' and val[1][1][1] == S('dict'):
+        D = val[1][1]
+    if D is not None and D[0] == 'call' and D[1] == S('dict') and len(D[2]) == 1 and D[2][0][0] == 'call' and D[2][0][1] == S('zip') and len(D[2][0][2]) == 2:
+        # dict(zip(KEYS, GROUPS)): one entry per distinct key.  The supervising lecturer of each project is NOT a distinct key
+        # (a lecturer may offer several projects): the groups of all but that lecturer's last project are lost
+        keys, groups = D[2][0][2]
+        if keys[0] == 'attr' and keys[2] == 'proj_lecturers' and groups[0] == 'attr' and groups[2] in GROUPED_BY:
+            return 'dict(zip(proj_lecturers, %s)) keeps one group per lecturer: a lecturer with several projects keeps only the last project\'s pairs' % groups[2]
     if D is None or D[0] != 'dictcomp':
         return None
     chain, key = D[1], D[2]
